@@ -62,19 +62,18 @@ Theorem C14_crossing_winnable : forall h w n ty own own' r, 5 <= h -> 5 <= w -> 
     trace [TMoveAgent; TTurnAgent] own' s acts = Ret (map (set_pos s) path).
 Proof. exact crossing_winnable. Qed.
 
-(* GENERAL (no bound): every initial state of `rooms` -- every shape, every pair of split lists 0 = s_0 < ... < s_n = last index with consecutive
-   entries at least two apart (rooms at least one cell wide; the shipped layouts give e.g. [0; 3; 6]), every random outcome -- is winnable by
-   walking (or the reset raised ValueError: fewer than two floor cells): every pair of neighbouring rooms shares exactly one passage, the rooms
-   form a connected grid, agent and exit stand on floor cells; the walk reaches the exit for the first time at its end *)
-Theorem C14_rooms_winnable : forall h w ym xm, 2 <= h -> 2 <= w -> (forall y, In y ym -> 1 <= y <= h - 2) -> (forall x, In x xm -> 1 <= x <= w - 2) ->
-  gap2 (0 :: ym ++ [h - 1]) -> gap2 (0 :: xm ++ [w - 1]) ->
-  forall own own' r, Leaf (reset_rooms h w (0 :: ym ++ [h - 1]) (0 :: xm ++ [w - 1]) own) r ->
+(* GENERAL (no bound): every initial state of `rooms` -- every shape, EVERY pair of split lists 0 :: inner ++ [last] with the inner walls strictly
+   inside, every random outcome -- is winnable by walking, or the reset raised ValueError (rooms without cells, which the fixed code rejects:
+   finding D8; or fewer than two floor cells): every pair of neighbouring rooms shares exactly one passage, the rooms form a connected grid,
+   agent and exit stand on floor cells; the walk reaches the exit for the first time at its end *)
+Theorem C14_rooms_winnable : forall h w ym xm own own' r, 2 <= h -> 2 <= w -> (forall y, In y ym -> 1 <= y <= h - 2) -> (forall x, In x xm -> 1 <= x <= w - 2) ->
+  Leaf (reset_rooms h w (0 :: ym ++ [h - 1]) (0 :: xm ++ [w - 1]) own) r ->
   r = Err ValueError \/
   exists s pe acts path, r = Ok s /\ (forall q, In q (cells_at (sgrid s) (is_ty ty_Exit)) <-> q = pe) /\
     walk (walkable (sgrid s) (is_ty ty_Exit) pe) (spos s) path /\ last path (spos s) = pe /\ ~ In pe (removelast path) /\
     length acts = length path /\ Forall (fun a => is_move a = true) acts /\
     trace [TMoveAgent; TTurnAgent] own' s acts = Ret (map (set_pos s) path).
-Proof. exact rooms_winnable. Qed.
+Proof. exact rooms_winnable_all. Qed.
 
 (* GENERAL (no bound): every initial state of `keydoor` -- every shape with height >= 4 and width >= 5, every random outcome (wall column, door,
    key, agent pose) -- is winnable under the shipped dynamics [move_agent; turn_agent; actuate_door; pickndrop]: an explicit action sequence
